@@ -558,3 +558,41 @@ Theorem C17_source_bh : forall ps,
   let tab := combine (map snd d) q in
   map (fun i => lookup_idx i tab) (seq 0 n).
 Proof. exact source_bh. Qed.
+
+(* ========================================================================== *)
+(** * Source ties, further wave [loop ties e2] (tools/fnspecs/segmetrics_e2.py; one generated module per tie) *)
+From CNV Require Gen.FnSegStatLoop Proofs.FnSegStatLoop Gen.FnSegCiTail Proofs.FnSegCiTail Gen.FnSegSmooth Proofs.FnSegSmooth.
+
+(* do_segmetrics' statistic loops, one iteration read for one segment row: `func = stat_funcs[statname]` looks up exactly
+   the statistic the model names, and it is applied to the row's bins (location) / deviations (spread) *)
+Theorem C17_source_location_stat : forall O ci pi nm f vals,
+  loc_stat O nm = Some f -> Proofs.FnSegStatLoop.src_location O ci pi nm vals = f vals.
+Proof. exact Proofs.FnSegStatLoop.source_location_stat. Qed.
+Theorem C17_source_spread_stat : forall O ci pi nm f devs,
+  spread_stat O nm = Some f -> Proofs.FnSegStatLoop.src_spread O ci pi nm devs = f devs.
+Proof. exact Proofs.FnSegStatLoop.source_spread_stat. Qed.
+(* ... and the model's column assignments ARE the generated step, once per requested name, in order *)
+Theorem C17_source_location_loop : forall O ci pi names vals,
+  (forall nm, In nm names -> loc_stat O nm <> None) ->
+  named_stats (loc_stat O) names vals = map (fun nm => (nm, Proofs.FnSegStatLoop.src_location O ci pi nm vals)) names.
+Proof. exact Proofs.FnSegStatLoop.source_location_loop. Qed.
+Theorem C17_source_spread_loop : forall O ci pi names devs,
+  (forall nm, In nm names -> spread_stat O nm <> None) ->
+  named_stats (spread_stat O) names devs = map (fun nm => (nm, Proofs.FnSegStatLoop.src_spread O ci pi nm devs)) names.
+Proof. exact Proofs.FnSegStatLoop.source_spread_loop. Qed.
+
+(* confidence_interval_bootstrap from `k = len(values)` on: the `k < 2` early return and the percentile selection
+   100 * [alpha / 2, 1 - alpha / 2] over the bootstrap distribution *)
+Theorem C17_source_ci_tail : forall O alpha boots smoothed x t wts,
+  let vals := x :: t in
+  eqQ (Proofs.FnSegCiTail.pair_list (ci_func O alpha boots smoothed vals wts))
+      (Gen.FnSegCiTail.fn_ci_tail (Z.of_nat (length vals)) [x; x] alpha smoothed Proofs.FnSegCiTail.percentiles
+                                  (ci_dist O boots smoothed vals wts)).
+Proof. exact Proofs.FnSegCiTail.source_ci_tail. Qed.
+
+(* _smooth_samples_by_weight's comprehension, one item / one element: v + bw * sqrt(1 - w) * z, the weight kept *)
+Theorem C17_source_smooth_item : forall (sqrtf : Q -> Q) k bw v w z,
+  (forall a b, a == b -> sqrtf a == sqrtf b) ->
+  smooth_elem sqrtf bw v w z == fst (Gen.FnSegSmooth.fn_smooth_item sqrtf k bw v w z) /\
+  snd (Gen.FnSegSmooth.fn_smooth_item sqrtf k bw v w z) = w.
+Proof. exact Proofs.FnSegSmooth.source_smooth_item. Qed.
